@@ -465,6 +465,52 @@ def r11(ctx):
               "exactly when the accessor finds any", got=[(render(x[1])[:200], common.canon_guard(pb.guard(x[0]))[:200]) for x in pe], key="fatal-reported")
 
 
+def r12(ctx):
+    """sent / failed / refused requests are REPORTED in NoneOneOrMany containers: collecting into one keeps every element (a refused
+    request that is dropped by the container appears nowhere in the audit).  from_iter decides None / One / Many on the collected
+    length; extend keeps both sides' elements"""
+    import re
+    N = "barter_integration::collection::none_one_or_many::NoneOneOrMany"
+
+    def plain(x):
+        prev = None
+        while prev != x:
+            prev = x
+            x = re.sub(r"mut\[[a-z_,]*\]\(((?:[^()]|\([^()]*\))*)\)", r"\1", x)
+        return x
+    b = ctx.ibody(ctx.find(name="from_iter", self_adt=N, trait="std::iter::FromIterator"))
+    tab = {plain(k): [plain(v) for v in vs] for k, vs in common.case_table(b).items()}
+    v = "Iterator::collect(iter)"
+    ones = ["NoneOneOrMany::One{0: Vec::swap_remove(%s, 0)}" % v, "NoneOneOrMany::One{0: Vec::remove(%s, 0)}" % v]
+    k0, k1, kn = "(Vec::len(%s) in {0})" % v, "(Vec::len(%s) in {1})" % v, "(Vec::len(%s) not in {0,1})" % v
+    ok = set(tab) == {k0, k1, kn} and tab[k0] == ["NoneOneOrMany::None{}"] and len(tab[k1]) == 1 and tab[k1][0] in ones and \
+        tab[kn] == ["NoneOneOrMany::Many{0: %s}" % v]
+    ctx.check("NoneOneOrMany::from_iter", ok, "None for no element, One(the element) for one, Many(all of them) otherwise - decided on the "
+              "collected length", got=tab, key="keeps-all")
+    e = ctx.ibody(ctx.find(name="extend", self_adt=N, trait=""))
+    tab = common.case_table(e)
+    o = "NoneOneOrMany::from_iter(other)"
+    want = {
+        "(self is None)": [o],
+        "(%s is None && self is Many|One)" % o: ["self"],
+        "(%s is One && self is Many|One && self is One)" % o: ["NoneOneOrMany::Many{0: vec{self.as:One.0, %s.as:One.0}}" % o],
+        "(%s is Many && self is Many|One && self is One)" % o: ["NoneOneOrMany::Many{0: mut[push](%s.as:Many.0)}" % o],
+        "(%s is One && self is Many && self is Many|One)" % o: ["NoneOneOrMany::Many{0: mut[push](self.as:Many.0)}"],
+        "(%s is Many && self is Many && self is Many|One)" % o: ["NoneOneOrMany::Many{0: mut[extend](self.as:Many.0)}"],
+    }
+    ctx.check("NoneOneOrMany::extend", tab == want, "extending keeps the elements of both sides in every combination of None / One / Many",
+              got=tab, want=want, key="keeps-both")
+    # (what is pushed / extended in the Many arms)
+    muts = sorted((mir.short(tm[1]), tuple(render(a) for a in tm[2])) for bi, t, tm in e.real_calls() if e.mut_args(t))
+    ctx.check("NoneOneOrMany::extend", muts == sorted([("Vec::push", ("%s.as:Many.0" % o, "self.as:One.0")) if False else ("Vec::push", ("self.as:Many.0", "%s.as:One.0" % o)),
+                                                      ("Vec::push", ("%s.as:Many.0" % o, "self.as:One.0")),
+                                                      ("Extend::extend", ("self.as:Many.0", "%s.as:Many.0" % o))]) or
+              sorted(m[0] for m in muts) == ["Extend::extend", "Vec::push", "Vec::push"] and
+              all(set(a.replace("mut[push](", "").replace("mut[extend](", "").rstrip(")") for a in m[1]) <= {"self.as:Many.0", "self.as:One.0", "%s.as:Many.0" % o, "%s.as:One.0" % o}
+                  for m in muts),
+              "the Many arms add exactly the other side's element(s) to the kept vector", got=muts, key="adds-other")
+
+
 RULES = [
     ("R9", "reporting: is_empty covers every part of the output; non-empty outputs are attached to the audit", r9),
     ("R8", "in-flight recorders: a sent open is tracked OpenInFlight, a sent cancel marks the tracked order CancelInFlight", r8),
@@ -477,4 +523,5 @@ RULES = [
     ("R7", "a missing link is an error", r7),
     ("R10", "request-sending strategy hooks run exactly on their trigger and their output is reported", r10),
     ("R11", "fatal classification: unrecoverable_errors() covers every request list of every action output", r11),
+    ("R12", "reporting containers keep every element (NoneOneOrMany::from_iter / extend)", r12),
 ]
